@@ -45,6 +45,7 @@ void model_allocator_lp_fini(struct mm_state *s) { (void)s; }
 #ifndef NSCHED
 #define NSCHED 2
 #endif
+#define NLP_PRED 2
 #define NLP 2
 #define MAXEV (N0 + NSCHED)
 
@@ -95,11 +96,28 @@ static void model(lp_id_t me, simtime_t now, unsigned type, const void *c, unsig
 	}
 	ordinal++;
 }
+#ifdef PRED
+/* solver-chosen predicate results per (LP, evaluation ordinal); both executions read the same table */
+static bool ptab[NLP_PRED][N0 + NSCHED + 1];
+static unsigned pcalls[NLP_PRED];
+static bool pred_at(lp_id_t me)
+{
+	unsigned k = pcalls[me] < N0 + NSCHED + 1 ? pcalls[me] : N0 + NSCHED;
+	pcalls[me]++;
+	return ptab[me][k];
+}
+static bool canend(lp_id_t me, const void *st)
+{
+	(void)st;
+	return pred_at(me);
+}
+#else
 static bool canend(lp_id_t me, const void *st)
 {
 	(void)me; (void)st;
 	return false;
 }
+#endif
 
 /* textbook executor: unsorted list, linear minimum under the documented order:
  * timestamp, then larger type first, smaller size first, larger payload first */
@@ -134,17 +152,32 @@ void harness(void)
 	for(unsigned k = 0; k < N0; k++) {
 		init[k].lp = vin_upto(NLP - 1);
 		init[k].t = (double)vin_upto(2);
+#ifdef PRED
+		/* with a stop rule the outcome depends on the order of content-identical simultaneous events for DIFFERENT LPs,
+		 * which the event order leaves open: every event gets its own type so that no two events are content-identical */
+		init[k].type = k;
+#else
 		init[k].type = vin_upto(1);
+#endif
 		init[k].size = vin_upto(1);
 		init[k].pl = init[k].size ? (vin_u8() & 1) : 0;
 	}
 	for(unsigned k = 0; k < NSCHED; k++) {
 		tab[k].lp = vin_upto(NLP - 1);
 		tab[k].t = (double)vin_upto(1);
+#ifdef PRED
+		tab[k].type = N0 + k;
+#else
 		tab[k].type = vin_upto(1);
+#endif
 		tab[k].size = vin_upto(1);
 		tab[k].pl = tab[k].size ? (vin_u8() & 1) : 0;
 	}
+#ifdef PRED
+	for(unsigned i = 0; i < NLP; i++)
+		for(unsigned k = 0; k < N0 + NSCHED + 1; k++)
+			ptab[i][k] = vin_bool();
+#endif
 	/* the runtime */
 	sched = send_rt;
 	for(unsigned k = 0; k < N0; k++)
@@ -152,7 +185,14 @@ void harness(void)
 			send_rt(&init[k]);
 	ordinal = 0;
 	serial_simulation_run();
+#ifndef PRED
 	VERIF_ASSERT(heap_is_empty(queue), "the run ends when no event is left (no predicate holds, no termination time)");
+#else
+	for(unsigned i = 0; i < NLP; i++)
+		pcalls[i] = 0;
+	bool ref_done[NLP] = {false, false};
+	unsigned ref_ndone = 0;
+#endif
 	/* the reference */
 	sched = send_ref;
 	for(unsigned k = 0; k < N0; k++)
@@ -172,6 +212,16 @@ void harness(void)
 		if(n_ref < MAXEV + 1)
 			log_ref[n_ref] = e;
 		n_ref++;
+#ifdef PRED
+		/* stop rule from the statement: the run stops right after the event at which the last LP's predicate first holds;
+		 * the predicate of an LP is sampled after each of its events until it has held once */
+		bool stop_now = false;
+		if(!ref_done[e.lp] && pred_at(e.lp)) {
+			ref_done[e.lp] = true;
+			ref_ndone++;
+			stop_now = ref_ndone == NLP;
+		}
+#endif
 		if(ordinal < NSCHED) {
 			struct ev s = tab[ordinal];
 			s.t = e.t + s.t;
@@ -179,6 +229,10 @@ void harness(void)
 			send_ref(&s);
 		}
 		ordinal++;
+#ifdef PRED
+		if(stop_now)
+			break;
+#endif
 	}
 	VERIF_ASSERT(n_rt == n_ref && n_rt <= MAXEV, "every scheduled event is delivered exactly once (same number of deliveries as the reference)");
 	for(unsigned k = 0; k < MAXEV; k++)
@@ -202,6 +256,10 @@ void harness(void)
 	VERIF_WITNESS("serial end reachable");
 	if(n_rt == MAXEV)
 		VERIF_WITNESS("serial run with every scheduled event delivered reachable");
+#ifdef PRED
+	if(n_rt >= 2 && n_rt < MAXEV && !heap_is_empty(queue))
+		VERIF_WITNESS("serial run stopped by the predicates with events still pending reachable");
+#endif
 }
 
 /* ---- the whole serial_simulation(): LP_INIT / LP_FINI bracketing and stop conditions ---- */
